@@ -512,6 +512,20 @@ def verify_guards(F, s, guards):
                             hit = True
             if not hit:
                 return False, "no call /%s/ with argument %d matching /%s/ in %s" % (g["callee"], g["arg"], g["matches"], F.canon_of(fb))
+        elif kind == "no-surrogates":
+            # every [Option<u16>; 256] encoding table of the crate is free of surrogate values (evaluated from the constants)
+            n = 0
+            for name, c in F.consts.items():
+                if c.get("ty") == "[std::option::Option<u16>; 256]" and "raw" in c and c.get("size") == 1024:
+                    raw = bytes.fromhex(c["raw"])
+                    n += 1
+                    for i in range(256):
+                        tag = int.from_bytes(raw[4 * i:4 * i + 2], "little")
+                        val = int.from_bytes(raw[4 * i + 2:4 * i + 4], "little")
+                        if tag == 1 and 0xD800 <= val <= 0xDFFF:
+                            return False, "%s maps byte %02X to the surrogate %04X" % (name, i, val)
+            if n < g.get("min_tables", 1):
+                return False, "found %d encoding tables, expected at least %d" % (n, g.get("min_tables", 1))
         else:
             return False, "unknown guard kind %s" % kind
     return True, "guards re-verified"
